@@ -151,6 +151,9 @@ def check(recipe) -> list[Fail]:
         raise HarnessError("bad start")
     for i, a in enumerate(mol.atoms):
         a.label = f"L{i}"
+    if recipe.get("int_q") and has_q and mol.n_atoms:
+        # the partial charges were assigned from INTEGER values (formal charges, zeros from a list of ints)
+        mol.atomic_charges = [int(i % 3) - 1 for i in range(mol.n_atoms)]
     model = Model(mol, has_q)
     fails = invariants(mol, model, -1, "start:" + start.split(":")[0])
     if fails:
@@ -289,9 +292,14 @@ def check(recipe) -> list[Fail]:
                     continue
                 f = dead[op[2] % len(dead)]     # an Atom object that was deleted from this molecule earlier
             else:
-                donor = cls()                    # an atom that currently belongs to ANOTHER molecule
+                donor = cls()                    # an atom that currently belongs to ANOTHER molecule (between two atoms of its own)
                 f = newatom(op[2])
-                donor.add_atom(f, [9.0, 9.0, 9.0])
+                d0_, d1_ = Atom(element=6, label="D0"), Atom(element=8, label="D1")
+                for a_, c_, q_ in ((d0_, [8.0, 9.0, 9.0], 0.125), (f, [9.0, 9.0, 9.0], 0.25), (d1_, [10.0, 9.0, 9.0], 0.375)):
+                    if has_q:
+                        donor.add_atom(a_, c_, q_)
+                    else:
+                        donor.add_atom(a_, c_)
                 model.donors = getattr(model, 'donors', []) + [donor]
             bond = Bond(a, f) if op[3] else Bond(f, a)
             [mol.append_bond, lambda b: mol.append_bonds(b), lambda b: mol.extend_bonds(iter([b]) if op[1] % 2 else [b])][op[2] % 3](bond)
@@ -305,8 +313,11 @@ def check(recipe) -> list[Fail]:
                 # ... and the molecule it came from then strikes it off its own list: the atom lives HERE now (parent, index, row)
                 try:
                     donor.del_atom(f)
-                except Exception:
-                    pass
+                except Exception as e:
+                    return [Fail("donor-cannot-strike-a-stolen-atom", f"step {step}: {e!r}"[:200])]
+                # ... and is itself left with its two own atoms, their rows and their charges
+                if donor.n_atoms != 2 or np.shape(donor.coords) != (2, 3) or not np.array_equal(np.asarray(donor.coords)[:, 0], [8.0, 10.0]) or (has_q and [float(x) for x in donor.atomic_charges] != [0.125, 0.375]):
+                    return [Fail("donor-misaligned-after-striking-a-stolen-atom", f"step {step}: {donor.n_atoms} atoms, coords {np.asarray(donor.coords).tolist()}, charges {list(getattr(donor, 'atomic_charges', []))}")]
         elif name == "del_bond":
             if not model.bonds:
                 continue
@@ -478,7 +489,7 @@ def _fix_elements(r):
 def strat(tier):
     molr = chem.molecule_recipe(max_atoms=10, max_bonds=12, full=False, special_coords=False, attribs=False).map(_fix_elements)
     return st.one_of(
-        st.fixed_dictionaries({"start": st.sampled_from(["recipe", "clone"]), "cls": st.sampled_from(["Molecule", "Molecule", "Structure"]), "mol": molr, "ops": _ops(40)}),
+        st.fixed_dictionaries({"start": st.sampled_from(["recipe", "clone"]), "cls": st.sampled_from(["Molecule", "Molecule", "Structure"]), "mol": molr, "ops": _ops(40), "int_q": st.booleans()}),
         st.fixed_dictionaries({"start": st.just("empty"), "cls": st.sampled_from(["Molecule", "Structure"]), "ops": _ops(40)}),
         st.fixed_dictionaries({"start": st.sampled_from(["file:" + f for f in FILES]), "clone_file": st.booleans(), "cls": st.sampled_from(["Molecule", "Structure"]), "ops": _ops(25)}),
     )
